@@ -50,7 +50,25 @@ def parse_outcome(ns, parser, text):
     return (obs.verdict, obs.error, obs.error_pos, obs.tree, ser, obs.exc)
 
 
-def fs_outcome(ns, fs, op_i):
+FPR_SCRIPTS = (0, 1, 2, 10)  # from_parser_result(P1) is enabled when P1's last parse was one of these (all accepted)
+
+
+def fs_outcome(ns, fs, op_i, parser=None):
+    if isinstance(op_i, tuple):
+        # ("fprs", i): load from a parser whose last parse was SCRIPTS[i]; in a history that parser is the shared P1,
+        # in the pristine baseline a fresh parser that parsed exactly that script
+        try:
+            if parser is None:
+                parser = ns.parser.Parser()
+                parser.parse(SCRIPTS[op_i[1]])
+            r = ("ret", repr(fs.from_parser_result(parser)))
+        except Exception as e:  # noqa
+            r = ("exc", type(e).__name__ + ": " + str(e)[:80])
+        try:
+            rendering = str(fs)
+        except Exception as e:  # noqa
+            rendering = "EXC:" + type(e).__name__
+        return (r, rendering, tuple(fs.requires))
     name, conds, acts = FS_OPS[op_i]
     try:
         if name == "str":
@@ -137,12 +155,15 @@ def events():
     for which in ("F1", "F2"):
         for i in range(len(FS_OPS)):
             ev.append(("fs", which, i))
+        ev.append(("fs", which, "fpr-P1"))
     return ev
 
 
 def ev_label(ev):
     if ev[0] == "parse":
         return "%s.parse(script%d)" % (ev[1], ev[2])
+    if ev[2] == "fpr-P1":
+        return "%s.from_parser_result(P1)" % ev[1]
     return "%s.%s" % (ev[1], FS_OPS[ev[2]][0])
 
 
@@ -151,9 +172,24 @@ def run_history(ns, hist, base_parse, base_fs):
     restore_state(ns)
     objs = {"P1": ns.parser.Parser(), "P2": ns.parser.Parser(), "F1": ns.factory.FiltersSet("t"), "F2": ns.factory.FiltersSet("t")}
     proj = {"F1": [], "F2": []}
+    last_p1 = None
     for k, ev in enumerate(hist):
+        if ev[0] == "fs" and ev[2] == "fpr-P1":
+            if last_p1 not in FPR_SCRIPTS:
+                return "skip"
+            op = ("fprs", last_p1)
+            proj[ev[1]].append(op)
+            got = fs_outcome(ns, objs[ev[1]], op, parser=objs["P1"])
+            want = base_fs[tuple(proj[ev[1]])][-1]
+            if got != want:
+                what = "outcome" if got[0] != want[0] else ("rendering" if got[1] != want[1] else "requires")
+                return (k, "filters:" + what, "%s (P1 last parsed script%d) gives %r, in a pristine interpreter %r" % (
+                    ev_label(ev), last_p1, _short(got), _short(want)))
+            continue
         if ev[0] == "parse":
             p = objs[ev[1]] if ev[1] != "PF" else ns.parser.Parser()
+            if ev[1] == "P1":
+                last_p1 = ev[2]
             got = parse_outcome(ns, p, SCRIPTS[ev[2]])
             want = base_parse[ev[2]]
             if got != want:
@@ -188,6 +224,8 @@ def hist_task(t):
     def rec(hist):
         nonlocal n
         bad = run_history(ns, hist, base_parse, base_fs)
+        if bad == "skip":
+            return
         n += 1
         if bad:
             k, clause, text = bad
@@ -196,6 +234,7 @@ def hist_task(t):
             viols.append({"property": "C13", "engine": "factory",
                           "signature": ["C13", ev_label(culprit).split(".", 1)[1] if culprit[0] == "fs" else "parse(script%d)" % culprit[2],
                                         "after:" + (ev_label(prev[-1]).split(".", 1)[1] if prev else "nothing"), clause],
+                          "fs_alphabet": "v2",
                           "what": "history %s: %s" % (" ; ".join(ev_label(e) for e in hist[:k + 1]), text),
                           "case": {"history": [list(e) for e in hist[:k + 1]]},
                           "witness": " ; ".join(ev_label(e) for e in hist[:k + 1]), "observed": text[:200]})
@@ -215,8 +254,9 @@ def run(tier, seed):
     # pristine baselines first: the parent has imported sievelib (seams.load in workers' parent) but executed nothing
     seams.load()
     btasks = [("parse", i) for i in range(len(SCRIPTS))]
+    alphabet = list(range(len(FS_OPS))) + [("fprs", i) for i in FPR_SCRIPTS]
     for L in range(1, depth + 1):
-        for seq in itertools.product(range(len(FS_OPS)), repeat=L):
+        for seq in itertools.product(alphabet, repeat=L):
             btasks.append(("fs", seq))
     bres = pool.run_tasks("checks.c13:baseline_task", btasks, fresh_each=True, chunksize=1)
     base_parse = {}
@@ -259,8 +299,9 @@ def replay(payload):
     hist = [tuple(e) for e in payload["case"]["history"]]
     depth = len([e for e in hist if e[0] == "fs"]) or 1
     btasks = [("parse", i) for i in range(len(SCRIPTS))]
+    alphabet = list(range(len(FS_OPS))) + [("fprs", i) for i in FPR_SCRIPTS]
     for L in range(1, depth + 1):
-        for seq in itertools.product(range(len(FS_OPS)), repeat=L):
+        for seq in itertools.product(alphabet, repeat=L):
             btasks.append(("fs", seq))
     bres = pool.run_tasks("checks.c13:baseline_task", btasks, fresh_each=True, chunksize=1)
     base_parse = {t[1]: out for t, out in bres if t[0] == "parse"}
